@@ -1074,6 +1074,30 @@ class Index:
             out.append((v, site))
         return out
 
+    def case_table(self, node, pos="", canon=None):
+        """sorted [(conditions, canonical value)] of an expression (tuple member `pos`), following immutable locals to
+        the branches that define them: `let (a, b) = if c { (x, y) } else { (u, v) }; (a, b)` and
+        `if c { (x, y) } else { (u, v) }` have the same table per member"""
+        canon = canon or self.canon
+        raw = self.value_cases(node, pos)
+        rows = []
+        for v, site in raw:
+            v0 = peel(v) if v is not None else None
+            if v0 is not None and v0.get("k") == "Local":
+                d2 = self.canon.defs.get(v0["lid"])
+                if d2 is not None and d2[0] == "let" and not d2[3] and v0["lid"] not in self.canon.assigned:
+                    sub = self.local_value_cases(v0["lid"])
+                    if len(sub) > 1 or (len(sub) == 1 and sub[0][1] is not peel(d2[1])):
+                        for v2, s2 in sub:
+                            rows.append((v2, s2))
+                        continue
+            rows.append((v, site))
+        out = []
+        for v, site in rows:
+            conds = sorted(set(pc["cond"] for pc in self.path_conditions(site) if pc["kind"] in self.CASE_KINDS))
+            out.append((conds, canon(v) if v is not None else None))
+        return sorted(out, key=lambda r: (r[0], r[1] or ""))
+
     GUARD_KINDS = ("guard", "guard-else", "let-else", "arm-exit", "ok_or")
 
     def all_guards(self):
